@@ -107,7 +107,7 @@ func parseForSigAt(pre, msg []byte, sched []int, hdrCap int) (*sipsp.PSIPMsg, in
 
 func evalSig(c CaseSig) Result {
 	base := renderSigMsg(c.Method, c.Reply, c.Base)
-	m0, o, e := parseForSig(base, nil, 80)
+	m0, o, e := parseForSig(base, nil, maxInt(80, len(c.Base)+1))
 	if e != 0 {
 		return viol("base message does not parse: (%d, %v)\nmsg=%s", o, e, B(base))
 	}
@@ -471,6 +471,18 @@ func genCaseSig(t *rapid.T) CaseSig {
 		c.Sched = []int{rapid.IntRange(1, 40).Draw(t, "c1"), rapid.IntRange(41, 120).Draw(t, "c2"), rapid.IntRange(121, 400).Draw(t, "c3")}
 	}
 	c.HdrCap = pick(t, "hcap", 80, 80, 40, -1, 0, 1, 2, 3, 5, 8)
+	if c.HdrCap == 80 {
+		// "ample" means every header of the base and of every variant fits
+		most := len(c.Base)
+		for _, v := range c.Vars {
+			if len(v) > most {
+				most = len(v)
+			}
+		}
+		if most+1 > c.HdrCap {
+			c.HdrCap = most + 1
+		}
+	}
 	switch weighted(t, "pre_k", 3, 2, 2) {
 	case 1: // behind an earlier message of the same stream
 		c.Pre = B("OPTIONS sip:a@b SIP/2.0\r\nCall-ID: 1.2.3.4-ff@x_y\r\nVia: SIP/2.0/UDP h;branch=z9hG4bK-a.b\r\nl: 0\r\n\r\n")
